@@ -56,6 +56,7 @@ fn main() {
             .build()
             .unwrap()
     };
+    svh::io::set_stale_tmp(arg(&args, "--io-stale-tmp").map(|v| v == "error").unwrap_or(false));
     if let Some(path) = arg(&args, "--dump-corpus") {
         let n = rt.block_on(svh::props::c10::dump_corpus(ctx.seed, &path));
         println!("corpus inputs: {}", n);
